@@ -245,6 +245,29 @@ def check_rst(report):
               and _const(n.value.args[0]) == '"""']
     if triple:
         guards["embedded triple quote"] = triple[0]
+        # C20.2q (seed C20e): the replacement must neutralise RUNS of quotes, not only an isolated triple: str.replace works on
+        # non-overlapping triples left to right, so the literal replacement is judged on the finite model of runs of 3..9 quotes
+        # (both arguments are constants of the source; nothing of /repo is executed): no run may leave three consecutive
+        # unescaped quotes, which would close the enclosing (raw or plain) triple-quoted literal.
+        rep = _const(triple[0].value.args[1]) if len(triple[0].value.args) > 1 else None
+        if isinstance(rep, str):
+            def _closes(t):
+                i = run = 0
+                while i < len(t):
+                    if t[i] == "\\":
+                        i += 2
+                        run = 0
+                        continue
+                    run = run + 1 if t[i] == '"' else 0
+                    if run == 3:
+                        return True
+                    i += 1
+                return False
+            badk = [k for k in range(3, 10) if _closes(('"' * k).replace('"""', rep) + " ")]
+            r.instance(f"triple-quote replacement {rep!r} on quote runs 3..9")
+            r.check(not badk, p, triple[0].lineno, f"{A}.replace('\"\"\"', {rep!r}) leaves an unescaped triple quote for runs of {badk} quotes",
+                    "a comment containing such a run of double quotes closes the docstring it is placed in: every quote of the run must "
+                    "end up escaped (or separated), whatever the run length")
     for what in ("trailing double quote", "embedded triple quote", "trailing backslash"):
         g = guards.get(what)
         r.instance(what)
